@@ -47,6 +47,8 @@ class ExecutionContext:
     on_metric: MetricHook | None
     on_log: LogHook | None
     operation: str | None
+    admitted: bool = False
+    settled: bool = False
 
     @classmethod
     def create(
@@ -106,6 +108,7 @@ def check_breaker(ctx: ExecutionContext) -> None:
 
     if not decision.allowed:
         raise CircuitOpenError(decision.state.value)
+    ctx.admitted = True
 
 
 def record_success(ctx: ExecutionContext) -> None:
@@ -113,6 +116,7 @@ def record_success(ctx: ExecutionContext) -> None:
     if ctx.breaker is None:
         return
 
+    ctx.settled = True
     event = ctx.breaker.record_success()
     ctx.emit_breaker_event(event, ctx.breaker.state)
 
@@ -120,6 +124,7 @@ def record_success(ctx: ExecutionContext) -> None:
 def record_cancel(ctx: ExecutionContext) -> None:
     """Record cancellation with circuit breaker (no event emitted)."""
     if ctx.breaker is not None:
+        ctx.settled = True
         ctx.breaker.record_cancel()
 
 
@@ -128,8 +133,22 @@ def record_failure(ctx: ExecutionContext, klass: ErrorClass) -> None:
     if ctx.breaker is None:
         return
 
+    ctx.settled = True
     event = ctx.breaker.record_failure(klass)
     ctx.emit_breaker_event(event, ctx.breaker.state, klass)
+
+
+def settle_breaker(ctx: ExecutionContext) -> None:
+    """
+    Make sure an admitted call has told the breaker that it is over.
+
+    Called from a ``finally`` around the admitted region: whatever way the call ends
+    (cancellation, GeneratorExit, a raising classifier or attempt hook, a nested
+    CircuitOpenError, ...), a call that has not reported success or failure is
+    recorded as cancelled so that a half-open probe slot is never leaked.
+    """
+    if ctx.admitted and not ctx.settled:
+        record_cancel(ctx)
 
 
 def classify_for_breaker(exc: BaseException, retry: Any) -> ErrorClass:
